@@ -32,7 +32,7 @@ def build_obs(tier, tables):
     obs.append(Ob("c02-flex-unreadable-input", "flex_input.c", [], unwind=6, checks="none", must_reach=("end of harness",),
                   params={"what": "real yy_get_next_buffer() of the flex output with fread() == 0 and ferror() set"}))
     obs.append(_ob("c02depth", ["CHK_C02"], 5, "SECM", 0, 0, 100000, checks="none"))
-    obs.append(_ob("c02depth", ["CHK_C02", "CHK_C12"], 12, "INT", 1, F["IGNORE"], 100000, checks="none"))
+    obs.append(_ob("c02depth", ["CHK_C02"], 12, "INT", 1, F["IGNORE"], 100000, checks="none"))
     return obs
 
 
